@@ -197,6 +197,111 @@ def potable_case(model_name, nr):
   return res
 
 
+def custom_table_case(name, nr):
+  """A potable model whose pair potential uses custom [Potential-Form] formulas (forms shared with other
+  arguments inside one definition): the LAMMPS table written through the real factory/writer on proxies (cexprtk
+  replaced by the validated stub) must hold, row by row, the formulas evaluated with explicitly bound parameters
+  and minus their jet derivative (central difference where no analytic derivative is offered)."""
+  from checks import c09
+  from symx import exprstub
+  from atsim.potentials.config import Configuration, ConfigParser
+  import re
+  res = new_result("potable custom forms %s nr=%d" % (name, nr))
+  bad = exprstub.validate()
+  if bad:
+    res["harness_errors"].append("cexprtk stub disagrees with the real cexprtk: %s" % "; ".join(bad[:3]))
+    return res
+  forms, pair = c09.CUSTOM[name]
+  tags = sorted(set(float(x) for x in re.findall(r"10\d\.0", pair)))
+  text = c09.custom_text(name).replace("target : LAMMPS\n", "target : LAMMPS\ncutoff : 6.0\nnr : %d\n" % nr)
+  cp = ConfigParser(io.StringIO(text))
+  shims.install(extra_globals={"atsim.potentials.config._cexprtk_potential_function": dict(cexprtk=exprstub)})
+  H = 0.1e-5
+
+  def fn():
+    tab_ = {t: sym("p%d" % int(t - 100)) for t in tags}
+    for t in tab_.values():
+      assume(t > 0)
+    scp = c09._SubstParser(cp, tab_)
+    tab = Configuration().read_from_parser(scp)
+    cutoff = sym("cutoff")
+    assume(cutoff > 0)
+    tab._cutoff = cutoff
+    out = io.StringIO()
+    tab.write(out)
+    spec = c09.spec_definition(cp.pair[0].potential_form_instance, c09.spec_functions(forms), tab_)
+    rows = []
+    for n in range(1, nr):
+      rn = n * cutoff / (nr - 1)
+      x1, x2 = rn - H / 2.0, rn + H / 2.0
+      rows.append((term(rn), term(spec(rn)), term(-((spec(x2) - spec(x1)) / (x2 - x1)))))
+    return out.getvalue(), rows, hasattr(tab.potentials[0].potentialFunction, "deriv")
+
+  def T(path, x):
+    t = path.term_of_number(x)
+    return t if t is not None else rv(x)
+
+  def build(path, wrong=False):
+    if path.exc is not None:
+      raise Structural("exception", "%s: %s" % (type(path.exc).__name__, str(path.exc)[:300]))
+    text_, rows, has_deriv = path.value
+    try:
+      blocks = pairtables.read_lammps_table(text_)
+    except pairtables.FormatError as e:
+      raise Structural("format", "LAMMPS reader rejects the file: %s" % e)
+    if len(blocks) != 1 or blocks[0]["N"] != nr - 1 or len(blocks[0]["rows"]) != nr - 1:
+      raise Structural("N", "table layout: %d blocks" % len(blocks))
+    vcs = []
+    for k, (idx, r, e, f) in enumerate(blocks[0]["rows"]):
+      rn, we, wf = rows[k if not wrong else (k + 1) % (nr - 1)]
+      vcs.append(VC("r%d" % (k + 1), eq_formula(T(path, r), rn), info=dict(key="custom-r")))
+      vcs.append(VC("E%d" % (k + 1), eq_formula(T(path, e), we), info=dict(key="custom-E")))
+      if not has_deriv:
+        vcs.append(VC("F%d" % (k + 1), eq_formula(T(path, f), wf), info=dict(key="custom-F")))
+    return vcs
+
+  def replay(v, w, path, structural):
+    c, d, rec = common.in_fresh_process("checks.c01", "replay_custom_table", name, nr, {k: v_ for k, v_ in w.items() if isinstance(v_, float) and not k.endswith("#exact")})
+    return bool(c), d, rec
+
+  try:
+    explore_and_check(res, fn, build, replay=replay, negative=lambda p: build(p, wrong=True), use_exp_axioms=True, vc_timeout_ms=30000,
+                      explorer_kw=dict(max_paths=600, query_timeout_ms=3000), max_seconds=150, catch=(Exception,))
+  finally:
+    shims.uninstall()
+  return res
+
+
+def replay_custom_table(name, nr, w):
+  """Concrete, real cexprtk: the LAMMPS table of the custom-form model versus the formulas with explicitly bound parameters."""
+  import math
+  import re
+  from checks import c09
+  from symx import exprstub
+  from specs import potential_forms as spec_
+  from atsim.potentials.config import Configuration, ConfigParser
+  forms, pair = c09.CUSTOM[name]
+  tags = sorted(set(float(x) for x in re.findall(r"10\d\.0", pair)))
+  vals = {t: (w.get("p%d" % int(t - 100)) if isinstance(w.get("p%d" % int(t - 100)), float) and 1e-3 < w.get("p%d" % int(t - 100)) < 50 else 0.8 + 0.45 * i) for i, t in enumerate(tags)}
+  ptxt = pair
+  for t, v in vals.items():
+    ptxt = ptxt.replace(repr(t), repr(v))
+  cutoff = w.get("cutoff") if isinstance(w.get("cutoff"), float) and 0.5 < w.get("cutoff") < 50 else 6.0
+  text = "[Tabulation]\ntarget : LAMMPS\ncutoff : %r\nnr : %d\n\n[Pair]\nA-B : %s\n\n[Potential-Form]\n%s\n" % (cutoff, nr, ptxt, "\n".join("%s = %s" % f for f in forms))
+  tab = Configuration().read(io.StringIO(text))
+  out = io.StringIO()
+  tab.write(out)
+  ref = spec_.make(math.exp, math.sqrt)
+  funcs = {"as." + k: v for k, v in ref.items()}
+  funcs.update({"pymath.exp": math.exp, "pymath.sqrt": math.sqrt, "pymath.log": math.log, "pymath.pow": math.pow})
+  for sigtext, formula in forms:
+    label, params = c09._sig(sigtext)
+    funcs[label] = (lambda *args, params=params, formula=formula: exprstub.evaluate(formula, dict(zip(params, args)), funcs))
+  f_spec = c09.spec_definition(ConfigParser(io.StringIO(text)).pair[0].potential_form_instance, funcs, {})
+  bad = common.compare_lammps(out.getvalue(), [("A", "B", f_spec, lambda r: common.num_deriv(f_spec, r))], cutoff, nr, tol=1e-6)
+  return (bool(bad), "; ".join(bad[:3]) or "table agrees with the formulas", dict(kind="custom_table", model=text))
+
+
 def cases(tier, seed=0):
   cs = []
   if tier == "quick":
@@ -217,6 +322,8 @@ def cases(tier, seed=0):
   for m in models:
     for nr in mnr:
       cs.append(Case("potable %s nr=%d" % (m, nr), potable_case, model_name=m, nr=nr))
+  for name in (("in-modifier", "calls-other-forms") if tier == "quick" else ("in-modifier", "calls-other-forms", "three-level", "positional", "if-and-compare")):
+    cs.append(Case("potable custom %s" % name, custom_table_case, name=name, nr=4))
   return cs
 
 
